@@ -340,3 +340,27 @@ package genetics
 //@     invariant 0 <= tryCount && (found ==> gene != nil && gene.IsEnabled && (exists s :: 0 <= s && s < len(g.Genes) && g.Genes[s] == gene))
 //@   loop 3:
 //@     invariant -1 <= #idx && !innovationFound && node == nil && gene1 == nil && gene2 == nil
+
+// ---- C16: lock discipline on the state shared by the reproduction goroutines ---------------------
+// Population.innovations is appended to and scanned concurrently: every access must hold Population.mutex.
+// The issue counters may only be touched through sync/atomic. govc additionally scans the closure of every
+// `go` statement: a function that touches one of these fields must be under a contract carrying C16.
+//@ guarded Population.innovations by mutex
+//@ atomic Population.nextInnovNum
+//@ atomic Population.nextNodeId
+//@ func (*Population).StoreInnovation
+//@   props C16
+//@   requires p != nil && p.mutex != nil && !sel(gLocked, p.mutex)
+//@   ensures [released] !sel(gLocked, p.mutex)
+//@   ensures [appended] len(p.innovations) == old(len(p.innovations)) + 1
+//@   ensures [prefixKept] forall i :: 0 <= i && i < old(len(p.innovations)) ==> p.innovations[i].InnovationNum == old(p.innovations[i].InnovationNum) && p.innovations[i].InNodeId == old(p.innovations[i].InNodeId) && p.innovations[i].OutNodeId == old(p.innovations[i].OutNodeId)
+//@ func (*Population).Innovations
+//@   props C16
+//@   requires p != nil && p.mutex != nil && !sel(gLocked, p.mutex)
+//@   ensures [released] !sel(gLocked, p.mutex)
+//@ func (*Population).NextInnovationNumber
+//@   props C16
+//@   requires p != nil
+//@ func (*Population).NextNodeId
+//@   props C16
+//@   requires p != nil
